@@ -22,7 +22,7 @@ ID = 'C03'
 LEVEL = 'exploration'
 N = {'quick': 32000, 'thorough': 800000}
 RULE = ('generated strict-ranking elections (party slates with chained transfers, mirrored ballots for exact ties, quota landings; undeclared '
-        'write-ins for mpls; a Scottish prior-stage template) x the 8 statutory rule names, plus wigm fixed/4 vs wigm-prf; the complete stage '
+        'write-ins for mpls; Scottish prior-stage and three-way-tie templates, a fractional quota landing, narrow-surplus chains with zero-valued papers) x the 8 statutory rule names, plus wigm fixed/4 vs wigm-prf; the complete stage '
         'history (quota, every election/exclusion/surplus event, every tally and the non-transferable total after each event, tie sets for '
         'Meek/QPQ) is compared with a reference count; non-trivial = the count has a surplus transfer and an exclusion, or a logged tie, or '
         'a batch exclusion; distinct = distinct case JSON')
